@@ -85,15 +85,36 @@ def scalar(tl, t):
     return float(v)
 
 
-def replay(pyhf, backend, precision, chunk):
+def warm_up(pyhf):
+    """first segment of a process (SwitchPrecision of MC_Prob): every primitive family is used once on the current backend"""
+    tl = pyhf.tensorlib
+    a = tl.astensor
+    tl.poisson_logpdf(a([3.0]), a([2.5])); tl.poisson(a([3.0]), a([2.5])); tl.poisson_dist(a([2.5])).log_prob(a([3.0]))
+    tl.normal_logpdf(a([0.5]), a([0.0]), a([1.5])); tl.normal(a([0.5]), a([0.0]), a([1.5])); tl.normal_dist(a([0.0]), a([1.5])).log_prob(a([0.5]))
+    tl.normal_cdf(a([0.5])); tl.normal_cdf(a([0.5]), mu=a([0.1]), sigma=a([2.0]))
+    pyhf.probability.Poisson(a([2.5])).log_prob(a([3.0])); pyhf.probability.Normal(a([0.0]), a([1.5])).log_prob(a([0.5]))
+
+
+def replay(pyhf, backend, precision, chunk, switch_to=None):
+    """switch_to = (backend, precision): the worker was started on the FIRST segment's backend/precision; warm up there, then
+    switch and discharge the obligations on the second"""
     out = {"n": 0, "calls": 0, "cases": {}, "kinds": {}, "findings": []}
+    first = None
+    if switch_to is not None:
+        if not getattr(pyhf, "_verif_warmed", False):
+            warm_up(pyhf)
+            pyhf._verif_warmed = True
+        first = (backend, precision)
+        backend, precision = switch_to
+        pyhf.set_backend(backend, precision=precision)
     tl = pyhf.tensorlib
     prob = pyhf.probability
     eps = EPS[precision]
 
     def add(key, detail, tags):
         if len(out["findings"]) < 40:
-            out["findings"].append((key, dict(detail, backend=backend, prec=precision), tags))
+            out["findings"].append((key + (f" (after a first segment on {first[0]}/{first[1]} in the same process)" if first else ""),
+                                    dict(detail, backend=backend, prec=precision, first=first), tags + (["switched"] if first else [])))
 
     def T(v):
         return tl.astensor([v])
@@ -128,7 +149,7 @@ def replay(pyhf, backend, precision, chunk):
     for line in chunk:
         rec = json.loads(line)
         o = rec["obligation"]
-        assert rec["backend"] == backend and rec["prec"] == precision
+        assert rec["backend"] == backend and rec["prec"] == precision, (rec["backend"], rec["prec"], backend, precision)
         out["n"] += 1
         out["kinds"][o["kind"]] = out["kinds"].get(o["kind"], 0) + 1
         tags = [f"backend:{backend}", f"prec:{precision}", "kind:" + o["kind"]]
